@@ -221,6 +221,10 @@ class NCElement:
         """remove xmlns attributes from rpc reply"""
         self.__xslt=self.__transform_reply
         self.__parser = etree.XMLParser(remove_blank_text=True, huge_tree=self.__huge_tree)
+        if self.__huge_tree:
+            # libxslt's own depth limit (3000, about two levels per element)
+            # is lower than what the huge_tree parser reads
+            etree.XSLT.set_global_max_depth(10000)
         self.__xslt_doc = etree.parse(io.BytesIO(self.__xslt), self.__parser)
         self.__transform = etree.XSLT(self.__xslt_doc)
         # parse from bytes: lxml refuses text that carries an XML encoding declaration
